@@ -21,6 +21,8 @@ func init() {
 			{"C06.R3", "q", "fail-stop on unaligned data / rebuild error", c06r3},
 			{"C06.R4", "q", "new process starts a new data file", c06r4},
 			{"C06.R7", "q", "recovery visits every chunk id", c06r7},
+			{"C02.R1b", "q", "shared: rotated file flushed promptly and joined at close", c02r1b},
+			{"C02.R4b", "q", "shared: per-chunk replay start is fresh", c02r4b},
 			{"C14.R7", "q", "shared: a split's recorded data size covers only accepted records", c14r7},
 			{"C09.R3", "q", "shared: size + CRC gates on every read", c09r3},
 			{"C02.R4", "q", "shared: hints trusted only for the covered prefix", c02r4},
